@@ -165,27 +165,29 @@ def buildTop {D} (A : DigAlg D) (p : Params) (sl : List Elem) : Tree D :=
 def setKid {D} (kids : Nat → Tree D) (i : Nat) (t : Tree D) : Nat → Tree D :=
   fun j => if j = i then t else kids j
 
+/-- a leaf that went over the threshold: `isDivided = true; makeBottomRanges`. `fuel` is the
+remaining depth budget at this range; when it is exhausted the division is `stuck` (Go: unbounded
+recursion in `makeBottomRanges`). -/
+def divideLeaf {D} (A : DigAlg D) (p : Params) (sl : List Elem) (cnt lo hi : Nat) : Nat → Tree D
+  | 0 => .stuck
+  | f + 1 =>
+    let l := buildKids A p sl f lo hi
+    .div cnt (listHash A l) (ofList l)
+
 /-- `addElement(h)` followed by `recalculateHashes`, after the skip list became `sl`.
-`fuel` is the remaining depth budget at this range (the same budget `build` has there); when it
-is exhausted a further division is `stuck` (Go: unbounded recursion in `makeBottomRanges`). -/
+`fuel` is the remaining depth budget at this range (the same budget `build` has there). -/
 def addEl {D} (A : DigAlg D) (p : Params) (sl : List Elem) (h : Nat) :
-    (fuel : Nat) → Tree D → (lo hi : Nat) → Tree D
-  | fuel, .leaf cnt _, lo, hi =>
-    if cnt + 1 > p.thr then
-      match fuel with
-      | 0 => .stuck
-      | f + 1 =>
-        let l := buildKids A p sl f lo hi
-        .div (cnt + 1) (listHash A l) (ofList l)
-    else mkLeaf A sl lo hi
-  | fuel, .div cnt _ kids, lo, hi =>
+    Tree D → (fuel lo hi : Nat) → Tree D
+  | .leaf cnt _, fuel, lo, hi =>
+    if cnt + 1 > p.thr then divideLeaf A p sl (cnt + 1) lo hi fuel else mkLeaf A sl lo hi
+  | .div cnt _ kids, fuel, lo, hi =>
     match bucketOf lo hi p.df h with
     | none => .stuck
     | some i =>
       let kids' := setKid kids i
-        (addEl A p sl h (fuel - 1) (kids i) (childRange lo hi p.df i).1 (childRange lo hi p.df i).2)
+        (addEl A p sl h (kids i) (fuel - 1) (childRange lo hi p.df i).1 (childRange lo hi p.df i).2)
       .div (cnt + 1) (kidsHash A p.df kids') kids'
-  | _, .stuck, _, _ => .stuck
+  | .stuck, _, _, _ => .stuck
 
 /-- `updateElement(h)` (fix-update) followed by `recalculateHashes` -/
 def updEl {D} (A : DigAlg D) (p : Params) (sl : List Elem) (h : Nat) :
@@ -233,7 +235,7 @@ def Index.set1 {D} (A : DigAlg D) (ix : Index D) (e : Elem) : Index D :=
   let existed := slHas e.id ix.sl
   let sl := slInsert e (slRemove e.id ix.sl)
   if existed then { ix with sl := sl, top := updEl A ix.p sl e.hash ix.top 0 (M - 1) }
-  else { ix with sl := sl, top := addEl A ix.p sl e.hash (depthFuel + 1) ix.top 0 (M - 1) }
+  else { ix with sl := sl, top := addEl A ix.p sl e.hash ix.top (depthFuel + 1) 0 (M - 1) }
 
 /-- `Set(elements...)` -/
 def Index.set {D} (A : DigAlg D) (ix : Index D) (es : List Elem) : Index D :=
